@@ -34,6 +34,21 @@ def scan(spec, tr):
             trig = 'K2'
         elif k == 'reroute_to' and e[4] == e[2] and 'K19' in active:
             trig = 'K19'
+        elif k == 'join' and e[4] and 'K19' in active:
+            trig = 'K19'     # a chain of reroutes brought a customer back into the node that is mid shift change / pre-emption
         if trig:
             return dict(finding=trig, group=gi, event_index=idx, t=e[1], detail=(k, e[1], e[2], e[3]))
     return None
+
+
+def soft(spec, tr):
+    """Statistics-only findings: returns {finding: payload} without cutting the trace."""
+    active = open_findings()
+    out = {}
+    if 'K29' in active:
+        nodes = {}
+        for e in tr.events:
+            if e[0] == 'jockey' and e[4] != -1 and e[5] >= e[6]:
+                nodes.setdefault(e[4], e[1])     # node -> time of the first jockeying arrival into a full node
+        if nodes: out['K29'] = nodes
+    return out
